@@ -58,6 +58,21 @@ partial def enumWalk (g : Grid) (key : Nat) (cnt chk : Nat) : Nat × Nat :=
   if key = maxKey64 then (cnt, chk)
   else enumWalk g (gridNextKey g key) (cnt + 1) ((chk * 31 + key % 1000000007) % 1000000007)
 
+/-- block index before the clamp (only for the branch tags) -/
+def rawBlock (n : Nat) (p a s : Float) : Nat := Trunc.toNat (Float.ofNat n * (p - a) / s)
+
+/-- does some child index of the descent get clamped? (only for the branch tags) -/
+def childClampActive : Tree → V3 Float → Box3 Float → Bool
+  | .leaf, _, _ => false
+  | .node c, p, box =>
+    let raw := fun (q a s : Float) => Trunc.toNat (2.0 * (q - a) / s)
+    if raw p.x box.ax box.sx ≥ 2 ∨ raw p.y box.ay box.sy ≥ 2 ∨ raw p.z box.az box.sz ≥ 2 then true
+    else
+      let ix := childIndex p.x box.ax box.sx
+      let iy := childIndex p.y box.ay box.sy
+      let iz := childIndex p.z box.az box.sz
+      childClampActive (c ⟨(4 * ix + 2 * iy + iz) % 8, Nat.mod_lt _ (by decide)⟩) p (childBox box ix iy iz)
+
 def gridLeaves (g : Grid) : Nat :=
   (List.range g.nx).foldl (fun a ix => (List.range g.ny).foldl (fun a iy =>
     (List.range g.nz).foldl (fun a iz => a + numLeaves (g.block ix iy iz)) a) a) 0
@@ -177,12 +192,12 @@ def step (st : St) : List String → St × String
     let ix := AMR.blockIndex g.nx p.x b.ax b.sx
     let iy := AMR.blockIndex g.ny p.y b.ay b.sy
     let iz := AMR.blockIndex g.nz p.z b.az b.sz
-    if ix ≥ g.nx ∨ iy ≥ g.ny ∨ iz ≥ g.nz then (st, s!"amr loc out-of-range {ix} {iy} {iz} #amr-out-of-range")
-    else
-    if AMR.descendOutOfRange (g.block ix iy iz) p (AMR.blockBox g b ix iy iz) then (st, "amr loc out-of-range child #amr-out-of-range-child")
-    else
     let (k, bx) := AMR.gridLocate g b p
-    (st, s!"amr loc {k} {Am.showBox bx} #amr-depth-{(AMR.decodeKey (AMR.cellOfKey k)).length}")
+    let clampB := Am.rawBlock g.nx p.x b.ax b.sx ≥ g.nx || Am.rawBlock g.ny p.y b.ay b.sy ≥ g.ny
+      || Am.rawBlock g.nz p.z b.az b.sz ≥ g.nz
+    let clampC := Am.childClampActive (g.block ix iy iz) p (AMR.blockBox g b ix iy iz)
+    let extra := (if clampB then " #amr-block-index-clamped" else "") ++ (if clampC then " #amr-child-index-clamped" else "")
+    (st, s!"amr loc {k} {Am.showBox bx} #amr-depth-{(AMR.decodeKey (AMR.cellOfKey k)).length}{extra}")
   | ["amr", "ngbs", _, _, _] => (st, "amr ngbs")
   | ["amr", "key", lv, px, py, pz] =>
     let p : GridNum.V3 Float := ⟨flt! px, flt! py, flt! pz⟩
@@ -191,9 +206,8 @@ def step (st : St) : List String → St × String
     let ix := AMR.blockIndex g.nx p.x b.ax b.sx
     let iy := AMR.blockIndex g.ny p.y b.ay b.sy
     let iz := AMR.blockIndex g.nz p.z b.az b.sz
-    if ix ≥ g.nx ∨ iy ≥ g.ny ∨ iz ≥ g.nz ∨ AMR.keyLoopOutOfRange (nat! lv) p (AMR.blockBox g b ix iy iz) then
-      (st, "amr key out-of-range #amr-key-out-of-range")
-    else (st, s!"amr key {AMR.gridKeyAtLevel g b (nat! lv) p}")
+    let _ := (ix, iy, iz)
+    (st, s!"amr key {AMR.gridKeyAtLevel g b (nat! lv) p}")
   | ["cart", "new", ax, ay, az, sx, sy, sz, nx, ny, nz, px, py, pz] =>
     let g := Cartesian.mkGrid (α := Float) ⟨flt! ax, flt! ay, flt! az, flt! sx, flt! sy, flt! sz⟩
       ⟨int! nx, int! ny, int! nz⟩ (px == "1") (py == "1") (pz == "1")
@@ -209,8 +223,9 @@ def step (st : St) : List String → St × String
     let i := Cartesian.cellIndices g ⟨flt! px, flt! py, flt! pz⟩
     let inr := decide (0 ≤ i.x ∧ i.x < g.n.x ∧ 0 ≤ i.y ∧ i.y < g.n.y ∧ 0 ≤ i.z ∧ i.z < g.n.z)
     let inrS := if inr then "in-range" else "out-of-range"
-    if !inr then (st, s!"cart loc out-of-range {i.x} {i.y} {i.z} #cart-out-of-range") else
-    (st, s!"cart loc {i.x} {i.y} {i.z} {Cartesian.longIndex g.n i} {Ca.showB (Cartesian.cellBox g i)} #cart-{inrS}")
+    let r := Cartesian.rawIndices g ⟨flt! px, flt! py, flt! pz⟩
+    let cl := if r.x != i.x || r.y != i.y || r.z != i.z then " #cart-top-index-clamped" else ""
+    (st, s!"cart loc {i.x} {i.y} {i.z} {Cartesian.longIndex g.n i} {Ca.showB (Cartesian.cellBox g i)} #cart-{inrS}{cl}")
   | ["cart", "ngb", l] =>
     let g := st.cart
     let i := Cartesian.indicesOf g.n (int! l)
